@@ -1,5 +1,5 @@
 #!/bin/bash
-for x in "$@"; do id=${x%%:*}; v=${x##*:}; d=/tmp/seed/$id
+for x in "$@"; do id=${x%%:*}; v=${x##*:}; d=/root/work/seed/$id
   python3 /verif/lib/seed_eval.py $d $v > $d/$v.eval.json 2>&1
   python3 -c "import json;r=json.load(open('$d/$v.eval.json'));print('$id/$v','confirmed' if r.get('confirmed') else 'NOT CONFIRMED', r.get('suite_with_change',{}).get('passed'), r['demo_without_change']['holds'], r.get('demo_with_change',{}).get('holds'))"
 done
